@@ -7,9 +7,9 @@ VARIABLE probe
 pvars == <<vars, probe>>
 
 \* memoised computations are writers too (they fill caches); pure attribute reads are not
-ProbeWriters == WriteOps \cup {"ScaleFactor", "NormalForm", "Eigenvalues", "Hamiltonian", "GenFuncs", "CreateOrbit"}
+ProbeWriters == WriteOps \cup {"ScaleFactor", "NormalForm", "Eigenvalues", "Hamiltonian", "GenFuncs", "CreateOrbit", "SysPropagate"}
 
-LinBattery == << <<"ReadOptions", <<>>>>, <<"ReadConfig", <<>>>>, <<"SysPoints", <<>>>>, <<"Eigenvalues", <<>>>>, <<"IsStable", <<>>>>,
+LinBattery == << <<"ReadOptions", <<>>>>, <<"ReadConfig", <<>>>>, <<"SysPoints", <<>>>>, <<"SysPropagate", <<"t1">>>>, <<"SysPropagate", <<"t2">>>>, <<"Eigenvalues", <<>>>>, <<"IsStable", <<>>>>,
                  <<"Position", <<>>>>, <<"Gamma", <<>>>>, <<"Cn", <<"k2">>>>, <<"Cn", <<"k3">>>>, <<"ScaleFactor", <<"own">>>>,
                  <<"ScaleFactor", <<"alt">>>>, <<"LinearModes", <<>>>>, <<"NormalForm", <<>>>>, <<"LinearData", <<>>>>,
                  <<"Energy", <<>>>>, <<"Jacobi", <<>>>>, <<"CreateOrbit", <<>>>> >>
@@ -18,10 +18,14 @@ HamBattery == << <<"GetCM", <<"d2">>>>, <<"GetCM", <<"d3">>>>,
                  <<"Hamiltonian", <<"d2", "center_manifold_real">>>>, <<"Hamiltonian", <<"d3", "physical">>>>,
                  <<"HamSys", <<"d2", "center_manifold_real">>>>, <<"HamSys", <<"d3", "physical">>>>,
                  <<"GenFuncs", <<"d2">>>>, <<"GenFuncs", <<"d3">>>>, <<"NormalForm", <<>>>>, <<"ScaleFactor", <<"own">>>> >>
-TriBattery == << <<"ReadOptions", <<>>>>, <<"ReadConfig", <<>>>>, <<"SysPoints", <<>>>>, <<"Eigenvalues", <<>>>>, <<"IsStable", <<>>>>,
+TriBattery == << <<"ReadOptions", <<>>>>, <<"ReadConfig", <<>>>>, <<"SysPoints", <<>>>>, <<"SysPropagate", <<"t1">>>>, <<"Eigenvalues", <<>>>>, <<"IsStable", <<>>>>,
                  <<"Position", <<>>>>, <<"ScaleFactor", <<"i0">>>>, <<"ScaleFactor", <<"i1">>>>, <<"ScaleFactor", <<"i2">>>>,
                  <<"LinearModes", <<>>>>, <<"NormalForm", <<>>>>, <<"LinearData", <<>>>>, <<"Energy", <<>>>>, <<"Jacobi", <<>>>> >>
-ReadSeq == CASE Battery = "lin" -> LinBattery [] Battery = "ham" -> HamBattery \o LinBattery [] Battery = "tri" -> TriBattery
+\* quick tier: the Hamiltonian layer and the reads it can disturb (the whole linear battery follows every writer at L3)
+ShortLin == << <<"ReadOptions", <<>>>>, <<"ReadConfig", <<>>>>, <<"SysPoints", <<>>>>, <<"Eigenvalues", <<>>>>, <<"ScaleFactor", <<"alt">>>>,
+               <<"LinearData", <<>>>>, <<"Cn", <<"k3">>>>, <<"Jacobi", <<>>>>, <<"CreateOrbit", <<>>>>, <<"SysPropagate", <<"t1">>>> >>
+ReadSeq == CASE Battery = "lin" -> LinBattery [] Battery = "ham" -> HamBattery \o LinBattery
+             [] Battery = "hamq" -> HamBattery \o ShortLin [] Battery = "tri" -> TriBattery
 
 LastRec == hist'[Len(hist')]
 IsOp(e) == LastRec.op = e[1] /\ LastRec.arg = e[2]
@@ -33,7 +37,7 @@ ProbeNext ==
     \/ probe \in 1 .. Len(ReadSeq) /\ Do(ReadSeq[probe][1], ReadSeq[probe][2]) /\ probe' = probe + 1
 ProbeSpec == ProbeInit /\ [][ProbeNext]_pvars
 
-CoreView  == <<Lo, Lc, Lpts, Io, Ic, Ipts, pc, left, saved>>
+CoreView  == <<Lo, Lc, Lpts, Io, Ic, Ipts, pc, sc, left, saved>>
 ProbeView == IF probe = 0 THEN <<CoreView, 0, <<>>>> ELSE <<CoreView, probe, hist>>
 EmitProbe == (probe = Len(ReadSeq) + 1) => PrintT(ToJson(hist))
 =============================================================================
